@@ -10,6 +10,10 @@ import time
 from pyvc import rx, rxob
 from .common import ctx, std
 
+# documented cost class per site that matches a pattern: ambiguity degree d means O(n^(d+1)) matching steps.  Every validator / parser is
+# linear or quadratic except the NVRA parser, whose pattern the property itself lists as the most ambiguous one.
+DEFAULT_SITE_DEGREE = 1
+SITE_DEGREE_CEILING = {"productmd.common.RPM_NVRA_RE": 4}
 DEGREE_CEILING = 4      # ambiguity degree of RPM_NVRA_RE, the most ambiguous pattern the property lists (cost O(n^5))
 
 EDA_REPLAY = r'''
@@ -159,6 +163,26 @@ def check(run):
             else:
                 ob.refuted("polynomial ambiguity degree %d exceeds the ceiling %d (pattern %r at %s)" % (d, DEGREE_CEILING, pat, where),
                            clause="degree", replay_script=None)
+    # per-site cost class: the obligations above are keyed by pattern TEXT (a changed pattern is a new obligation, the old one goes
+    # missing); these are keyed by the SITE that uses a pattern, with the documented ceiling of that site, so that replacing a
+    # validator's pattern by a costlier one is decided (refuted), not merely undecided
+    sites = {}
+    for pat in inv:
+        for w, how in inv[pat]:
+            if w.endswith(".<module>"):
+                continue            # module-level re.compile calls: the constants they define are sites of their own
+            sites.setdefault(w, []).append(pat)
+    for site in sorted(sites):
+        ceil = SITE_DEGREE_CEILING.get(site, DEFAULT_SITE_DEGREE)
+        with run.obligation("re.site_degree[%s]" % site, "rx", [site]) as ob:
+            worst = max((rx.degree(p)[0], p) for p in sites[site])
+            ob.detail["note"] = "costliest pattern at this site has ambiguity degree %d (ceiling %d)" % (worst[0], ceil)
+            if worst[0] <= ceil:
+                ob.discharged()
+            else:
+                w = "a" * 300 + "!"
+                ob.refuted("pattern %r used at %s has ambiguity degree %d (cost O(n^%d) under A7); the documented ceiling of this site is %d"
+                           % (worst[1], site, worst[0], worst[0] + 1, ceil), clause="site_degree", replay_script=None)
     linear_code(run, c)
     rxob.differential_check(run, [(_short(p), p) for p in sorted(inv)], 4 if run.tier == "quick" else 6)
     timing(run, c, inv)
@@ -237,7 +261,8 @@ def timing(run, c, inv):
 
     def h(*a):
         raise TO()
-    old = signal.signal(signal.SIGALRM, h)
+    old = signal.signal(signal.SIGVTALRM, h)
+    limit = 4.0 if run.tier == "quick" else 8.0
     fails = []
     n = 0
     try:
@@ -246,31 +271,30 @@ def timing(run, c, inv):
             A = rx.build(pat, fullmatch=True)
             mts = rx.minterms(rx.charsets(A))
             reps = [chr(min(m)) if min(m) < 128 else "Ā" for m in mts][:12]
-            # the input length is scaled to the PROVED ambiguity degree d (cost O(n^(d+1)) under A7), so that a polynomial pattern
-            # stays far below the time-out and only super-polynomial behaviour can trip it: n^(d+1) <= ~3e7 steps
-            d, _ = rx.degree(pat)
-            cap = 300 if run.tier == "quick" else 1500
-            nrep = max(40, min(cap, int((3e7) ** (1.0 / (d + 1)))))
+            # fixed lengths with a wide margin on the unchanged tree: the costliest pattern (RPM_NVRA_RE, cubic in practice) needs 0.05 s
+            # of CPU at 300 and 0.4 s at 600 repetitions; the limits are 4 s / 8 s of CPU TIME (ITIMER_VIRTUAL: a loaded machine does not
+            # trip them).  1500 repetitions, tried first in the thorough tier, legitimately take 5 s for that polynomial pattern.
+            nrep = 300 if run.tier == "quick" else 600
             for ch in reps:
                 for suf in ("!", "\n\n"):
                     w = ch * nrep + suf
                     n += 1
-                    signal.setitimer(signal.ITIMER_REAL, 4.0)
+                    signal.setitimer(signal.ITIMER_VIRTUAL, limit)
                     t = time.perf_counter()
                     try:
                         rxo.match(w)
                     except TO:
                         fails.append((pat, ch, suf, nrep))
                     finally:
-                        signal.setitimer(signal.ITIMER_REAL, 0)
+                        signal.setitimer(signal.ITIMER_VIRTUAL, 0)
     finally:
-        signal.signal(signal.SIGALRM, old)
-    run.add_bounded("every inventoried pattern", "pumped single-class inputs under a 4 s time-out",
-                    "each minterm representative x up to %d repetitions (scaled to the proved degree) x 2 failing suffixes"
-                    % (300 if run.tier == "quick" else 1500), n, fails, seconds=time.time() - t0)
+        signal.signal(signal.SIGVTALRM, old)
+    run.add_bounded("every inventoried pattern", "pumped single-class inputs under a CPU-time limit of %d s" % limit,
+                    "each minterm representative x %d repetitions x 2 failing suffixes" % (300 if run.tier == "quick" else 600),
+                    n, fails, seconds=time.time() - t0)
     for pat, ch, suf, nrep in fails[:1]:
         w = ch * nrep + suf
         run.violation("bounded:timing[%s]" % _short(pat), "polynomial matching time", "pattern %r stalls on %r*%d+%r" % (pat, ch, nrep, suf),
-                      "import re, signal\nclass TO(Exception): pass\ndef h(*a): raise TO()\nsignal.signal(signal.SIGALRM, h)\n"
-                      "signal.alarm(4)\ntry:\n re.compile(%r).match(%r)\nexcept TO: REPRODUCED('no answer within 4 s on %d characters')\n"
-                      "signal.alarm(0)\nNOT_REPRODUCED()\n" % (pat, w, len(w)))
+                      "import re, signal\nclass TO(Exception): pass\ndef h(*a): raise TO()\nsignal.signal(signal.SIGVTALRM, h)\n"
+                      "signal.setitimer(signal.ITIMER_VIRTUAL, %r)\ntry:\n re.compile(%r).match(%r)\nexcept TO: REPRODUCED('no answer within %d s of CPU time on %d characters')\n"
+                      "signal.setitimer(signal.ITIMER_VIRTUAL, 0)\nNOT_REPRODUCED()\n" % (limit, pat, w, int(limit), len(w)))
